@@ -4,7 +4,8 @@ CONSTANTS
   Calls <- I2
   FixIdle = TRUE
   FixStop = TRUE
+  FixOrder = TRUE
   FixWake = TRUE
   CallTimeouts = TRUE
-INVARIANTS NoDeadLetter NoStuckPoll Conservation OwnResult ProviderPolls NoSleepingCall NothingLost
+INVARIANTS NoDeadLetter NoStuckPoll Conservation OwnResult ProviderPolls NoSleepingCall NothingLost NoLostResult
 CHECK_DEADLOCK FALSE
